@@ -955,10 +955,10 @@ func rulePanic(sc panicScope) ruleFn {
 				r.Bad("R7.P1", "", "unmapped-func:"+site, site, "enclosing function of an unproven bounds check not found in SSA")
 				continue
 			}
-			if !set[fn] {
-				continue
+			r.silent = !set[fn]
+			if set[fn] {
+				nP1++
 			}
-			nP1++
 			construct := normExpr(info, path[0].(ast.Expr))
 			name := fnName(fn)
 			if ok, why := r.P.proveBounds(path, info); ok {
@@ -975,18 +975,24 @@ func rulePanic(sc panicScope) ruleFn {
 				r.Bad("R7.P1", name, construct, site, msg+"; "+r.ctxNote(fn))
 			}
 		}
+		r.silent = false
 		if sc.label == "http" {
 			r.AtLeast("R7.P1", "unproven bounds checks in scope", nP1, 25)
 		}
 
 		// ---- SSA-based kinds ----
+		// every function of the module is walked (table credits are counted module-wide);
+		// obligations are recorded for the functions in scope only
 		var fns []*ssa.Function
-		for fn := range set {
-			fns = append(fns, fn)
+		for _, fn := range r.P.Funcs {
+			if fn.Synthetic == "" {
+				fns = append(fns, fn)
+			}
 		}
 		sort.Slice(fns, func(i, j int) bool { return fnName(fns[i]) < fnName(fns[j]) })
 		nP2, nP3, nP4, nP5, nP6 := 0, 0, 0, 0, 0
 		for _, fn := range fns {
+			r.silent = !set[fn]
 			name := fnName(fn)
 			for _, ins := range allInstrs(fn) {
 				switch x := ins.(type) {
@@ -1045,10 +1051,13 @@ func rulePanic(sc panicScope) ruleFn {
 				}
 			}
 			a, b := r.nilChecks(fn)
-			nP3 += a
-			nP5 += b
+			if set[fn] {
+				nP3 += a
+				nP5 += b
+			}
 			r.nilMapWrites(fn)
 		}
+		r.silent = false
 		_ = nP2
 		_ = nP4
 		_ = nP6
@@ -1667,7 +1676,7 @@ type namedTable struct {
 var allTables = []namedTable{
 	{"bounds", &boundsTable}, {"assert", &assertTable}, {"panic", &panicTable}, {"div", &divTable}, {"nil", &nilTable},
 	{"err", &errTable}, {"det", &detTable}, {"select", &selectTable}, {"stepLoop", &stepLoopTable},
-	{"planWrite", &planWriteTable}, {"astWrite", &astWriteTable}, {"variableWrite", &variableWriteTable},
+	{"planWrite", &planWriteTable}, {"astWrite", &astWriteTable}, {"variableWrite", &variableWriteTable}, {"fanoutOwnerWrites", &fanoutOwnerWrites}, {"cmp", &cmpTable}, {"globalWrite", &globalWriteTable},
 }
 
 // jsonDecodedInto: the address of al is handed to encoding/json (Unmarshal / Decoder.Decode).
